@@ -375,6 +375,11 @@ func leastConnsBalance(backs BackendList) (BackendList, error) {
 		}
 	}
 
+	// backend availability may have changed since the first scan
+	if len(candidates) == 0 {
+		candidates = append(candidates, best)
+	}
+
 	return candidates, nil
 }
 
